@@ -40,19 +40,7 @@ static Case gen_case() {
     // thousands of one-entry blocks through a wide pool: many blocks in flight at once, so statistics that are updated by
     // the workers (rather than by the single result handler) would lose updates now and then
     c.h = AddHist();
-    c.h.cfg.comp = chance(50) ? 0 : 1;
-    c.h.cfg.block_size = 1024;
-    c.h.cfg.pool = 8;
-    int nblk = pick(1500, 4000);
-    for (int i = 0; i < nblk; i++) {
-      SEntry e;
-      char k[16];
-      snprintf(k, sizeof k, "b%06d", i);
-      e.k = BStr::of(bytes(k));
-      e.v.glen = 1100;
-      e.v.gseed = (uint32_t)i;
-      c.h.adds.push_back(e);
-    }
+    gen_many_blocks_pooled(c.h.cfg, c.h.adds);
     c.exec_tool = false;
     return c;
   }
